@@ -1,5 +1,5 @@
 //! Object-safe access to the 15 hash types (plus extra Skein output sizes) through their public `digest` API.
-use digest::generic_array::typenum::{U128, U20, U32, U64, U8};
+use digest::generic_array::typenum::{U1, U128, U129, U20, U200, U32, U33, U64, U65, U8};
 use digest::generic_array::GenericArray;
 use digest::{BlockInput, Digest, FixedOutput, FixedOutputDirty, Reset, Update};
 
@@ -116,7 +116,8 @@ use skein_hash::{Skein1024, Skein256, Skein512};
 
 counter_impl!(
     Blake224, Blake256, Blake384, Blake512, Groestl224, Groestl256, Groestl384, Groestl512, Jh224, Jh256, Jh384, Jh512,
-    Skein256<U32>, Skein512<U64>, Skein1024<U128>, Skein256<U64>, Skein512<U20>, Skein1024<U8>, Skein256<U128>
+    Skein256<U32>, Skein512<U64>, Skein1024<U128>, Skein256<U64>, Skein512<U20>, Skein1024<U8>, Skein256<U128>,
+    Skein256<U1>, Skein256<U33>, Skein512<U65>, Skein1024<U129>, Skein512<U200>
 );
 
 #[derive(Clone, Copy, Debug, PartialEq, Eq)]
@@ -137,7 +138,7 @@ pub struct HashType {
     pub dispatching: bool,
 }
 
-pub const TYPES: [HashType; 19] = [
+pub const TYPES: [HashType; 24] = [
     HashType { name: "Blake224", family: Family::Blake, block: 64, out: 28, dispatching: true },
     HashType { name: "Blake256", family: Family::Blake, block: 64, out: 32, dispatching: true },
     HashType { name: "Blake384", family: Family::Blake, block: 128, out: 48, dispatching: true },
@@ -158,6 +159,12 @@ pub const TYPES: [HashType; 19] = [
     HashType { name: "Skein512_20", family: Family::Skein, block: 64, out: 20, dispatching: false },
     HashType { name: "Skein1024_8", family: Family::Skein, block: 128, out: 8, dispatching: false },
     HashType { name: "Skein256_128", family: Family::Skein, block: 32, out: 128, dispatching: false },
+    // one byte; one byte more than a state block (a second, truncated output block) for each state size; several blocks + odd
+    HashType { name: "Skein256_1", family: Family::Skein, block: 32, out: 1, dispatching: false },
+    HashType { name: "Skein256_33", family: Family::Skein, block: 32, out: 33, dispatching: false },
+    HashType { name: "Skein512_65", family: Family::Skein, block: 64, out: 65, dispatching: false },
+    HashType { name: "Skein1024_129", family: Family::Skein, block: 128, out: 129, dispatching: false },
+    HashType { name: "Skein512_200", family: Family::Skein, block: 64, out: 200, dispatching: false },
 ];
 
 pub fn type_index(name: &str) -> Option<usize> {
@@ -184,7 +191,12 @@ pub fn new_hash(idx: usize) -> Box<dyn HashObj> {
         15 => Box::new(Skein256::<U64>::default()),
         16 => Box::new(Skein512::<U20>::default()),
         17 => Box::new(Skein1024::<U8>::default()),
-        _ => Box::new(Skein256::<U128>::default()),
+        18 => Box::new(Skein256::<U128>::default()),
+        19 => Box::new(Skein256::<U1>::default()),
+        20 => Box::new(Skein256::<U33>::default()),
+        21 => Box::new(Skein512::<U65>::default()),
+        22 => Box::new(Skein1024::<U129>::default()),
+        _ => Box::new(Skein512::<U200>::default()),
     }
 }
 
@@ -209,6 +221,11 @@ pub fn oneshot(idx: usize, data: &[u8]) -> Vec<u8> {
         15 => Skein256::<U64>::digest(data).to_vec(),
         16 => Skein512::<U20>::digest(data).to_vec(),
         17 => Skein1024::<U8>::digest(data).to_vec(),
-        _ => Skein256::<U128>::digest(data).to_vec(),
+        18 => Skein256::<U128>::digest(data).to_vec(),
+        19 => Skein256::<U1>::digest(data).to_vec(),
+        20 => Skein256::<U33>::digest(data).to_vec(),
+        21 => Skein512::<U65>::digest(data).to_vec(),
+        22 => Skein1024::<U129>::digest(data).to_vec(),
+        _ => Skein512::<U200>::digest(data).to_vec(),
     }
 }
